@@ -55,7 +55,13 @@ def _clauses(n, mode):
         # the code's shortcut: baseline + cov * delta
         ens.append(("C12.single_program_formula", "result == self.baseline + cov[0] * D[0]"))
         return ens
-    ens.append(("C12.weights_nonneg", " and ".join("%s >= 0" % W(c) for c in range(1, 2 ** n))))
+    if n <= 2:
+        ens.append(("C12.weights_nonneg", " and ".join("%s >= 0" % W(c) for c in range(1, 2 ** n))))
+    else:
+        # one clause per weight: the conjunction over all 2^n - 1 weights is one large nonlinear query (tens of seconds), the
+        # individual sign conditions are decided in well under a second each
+        for c in range(1, 2 ** n):
+            ens.append(("C12.weight_of_combination_%s_is_nonneg" % combos[c], "%s >= 0" % W(c)))
     ens.append(("C12.weights_total_at_most_one", " + ".join(W(c) for c in range(1, 2 ** n)) + " <= 1"))
     for i in range(n):
         members = [c for c in range(1, 2 ** n) if combos[c][i] == "1"]
